@@ -41,6 +41,22 @@ def handle (j : Json) : Json :=
         Json.mkObj [("fits", Json.arr #[ratToJson (fitsLinearND n cr cd m pf i), ratToJson (fitsLinearND n cr cd m pf k)]),
                     ("block", Json.arr #[ratToJson b.1, ratToJson b.2])]) pts)
     | none => badRequest "C20 linear_nd"
+  | some "header_matrix" =>
+    -- {"n", "cd": [[i,j,v]..], "pc": [[i,j,v]..]}: the matrix read_wcs_from_header assembles, and whether it is the CD form
+    match (do
+        let n ← jNat (← jField j "n")
+        let card := fun (c : Json) => do
+          let l ← jArr c
+          match l with
+          | [a, b, v] => pure ((← jNat a, ← jNat b, ← jRat v) : Remap.Card)
+          | _ => none
+        let cd ← jList card (← jField j "cd")
+        let pc ← jList card (← jField j "pc")
+        pure (n, cd, pc)) with
+    | some (n, cd, pc) =>
+      okJson (Json.mkObj [("has_cd", Json.bool (hasCD cd)),
+        ("matrix", listToJson (fun (i : Nat) => listToJson (fun (k : Nat) => ratToJson (headerMatrix cd pc (i + 1) (k + 1))) (List.range n)) (List.range n))])
+    | none => badRequest "C20 header_matrix"
   | some "lonpole" =>
     match jRat (jFieldD j "phi0" Json.null), jRat (jFieldD j "theta0" Json.null), jRat (jFieldD j "lat" Json.null) with
     | some a, some b, some c => okJson (ratToJson (lonpoleDefault a b c))
